@@ -1,6 +1,7 @@
 //go:build verif
 
 //verif:dir core/crypto
+//verif:also C01
 //verif:subst core/crypto google.golang.org/protobuf/proto.Marshal verifProtoMarshal
 //verif:subst core/crypto crypto/x509.MarshalPKIXPublicKey verifMarshalPKIX
 //verif:obligation C08.d the serialized form of a public key - and hence the peer ID derived from it - is a function of the key alone: MarshalPublicKey of an RSA key that was received off the wire (PublicKeyFromProto, whatever bytes the sender wrapped it in: 0..6 arbitrary extra bytes that a protobuf decoder keeps as unknown fields) equals MarshalPublicKey of the same key created locally, and marshalling twice gives the same bytes
